@@ -17,8 +17,8 @@ pub struct C08;
 
 fn n_cases(tier: Tier) -> u64 {
     match tier {
-        Tier::Quick => 12_000,
-        Tier::Thorough => 400_000,
+        Tier::Quick => 100_000,
+        Tier::Thorough => 3_000_000,
     }
 }
 
